@@ -1,4 +1,12 @@
 package main
 
-func runForeign(c jobCase) {}
-func runIntro(file []byte)  {}
+import (
+	"os"
+	"reflect"
+)
+
+func runIntro(file []byte) {}
+
+func reflectElem(r *Rec) reflect.Value { return reflect.ValueOf(r).Elem() }
+
+func writeFile(p string, b []byte) { os.WriteFile(p, b, 0o644) }
